@@ -80,6 +80,10 @@ where
 }
 
 pub fn build_case<'src, I: HInput<'src>, E: HErr<'src, I>>(case: &Case) -> BP<'src, I, E> {
+    // `<id>~s<N>`: token sequences / sets of `just`, `one_of`, `none_of` are handed over as the N-th `Seq` flavour
+    let fl = case.id.rsplit_once("~s").and_then(|(_, n)| n.parse::<u8>().ok()).unwrap_or(0);
+    crate::build::SEQ_FL.with(|f| f.set(fl));
+    crate::build::CLONE_FL.with(|f| f.set(case.id.contains("~c")));
     if case.id.starts_with('R') && case.defs.len() == 1 {
         // a single definition built with `recursive(|p| ..)` instead of declare/define
         let def = case.defs[0].clone();
@@ -126,16 +130,22 @@ pub fn run_one_p<'src, I: HInput<'src>, E: HErr<'src, I>, P: Parser<'src, I, Val
                 let res = p.parse_with_state(input, &mut st);
                 let ir_ok = res.clone().into_result().is_ok();
                 let (ho, he) = (res.has_output(), res.has_errors());
+                let (bo, bn) = (res.output().is_some(), res.errors().len());
+                let (co, cn) = (res.clone().into_output().is_some(), res.clone().into_errors().len());
                 let (o, errs) = res.into_output_errors();
                 assert!(ho == o.is_some() && he == !errs.is_empty(), "harness: ParseResult accessors inconsistent");
+                assert!(bo == ho && co == ho && bn == errs.len() && cn == errs.len(), "harness: ParseResult accessors inconsistent (borrowing / consuming forms)");
                 render_result::<I, E>(o, errs, &st, ir_ok, &mut s);
             }
             ModeK::Check => {
                 let res = p.check_with_state(input, &mut st);
                 let ir_ok = res.clone().into_result().is_ok();
                 let (ho, he) = (res.has_output(), res.has_errors());
+                let (bo, bn) = (res.output().is_some(), res.errors().len());
+                let (co, cn) = (res.clone().into_output().is_some(), res.clone().into_errors().len());
                 let (o, errs) = res.into_output_errors();
                 assert!(ho == o.is_some() && he == !errs.is_empty(), "harness: ParseResult accessors inconsistent");
+                assert!(bo == ho && co == ho && bn == errs.len() && cn == errs.len(), "harness: ParseResult accessors inconsistent (borrowing / consuming forms)");
                 render_result::<I, E>(o.map(|_| Val::Unit), errs, &st, ir_ok, &mut s);
             }
         }
